@@ -21,7 +21,7 @@ def evaluate(name, suite=True):
     parts = name.split("-")
     prop = (parts[1] if parts[0] in ("R2", "R3", "R4", "R5", "R6", "R7", "R8", "R9") else parts[0]).rstrip("b")
     cmd = ["/venv/bin/python", os.path.join(VERIF, "tools", "eval_seeded.py"), prop, os.path.join(d, "patch.diff"),
-           os.path.join(d, "demo.py"), "--tiers", "quick,thorough"]
+           os.path.join(d, "demo.py"), "--tiers", os.environ.get("SEEDED_TIERS", "quick,thorough")]
     if not suite:
         cmd.append("--no-suite")
     p = subprocess.run(cmd, capture_output=True, text=True, timeout=4 * 3600)
